@@ -87,9 +87,11 @@ func Start(r *zsim.Run, addr string) *Server {
 		// go-redis draws its retry back-off jitter from a package-private source whose state
 		// survives from run to run; min == max pins the back-off (8ms) so that a run does not
 		// depend on what earlier runs of the same process consumed
-		// the default pool size is 10 x GOMAXPROCS, and after that many failed dials the pool
-		// only re-dials once a second: pin it so that a run does not depend on the core count
-		PoolSize:        20,
+		// the default pool size is 10 x GOMAXPROCS, and after that many failed dials the pool starts a
+		// goroutine of its own (tryDial) that re-dials once a second: that goroutine is outside the
+		// scheduler's control (it races with the running task until it reaches the dialer), so the pool
+		// is made larger than the number of dials a run can fail
+		PoolSize:        4096,
 		MinRetryBackoff: 8 * time.Millisecond,
 		MaxRetryBackoff: 8 * time.Millisecond,
 		Dialer:          s.dial,
@@ -97,7 +99,12 @@ func Start(r *zsim.Run, addr string) *Server {
 	return s
 }
 
+// The transport re-enters the scheduler at every dial, write and completed read: go-redis blocks in code the
+// instrumenter does not see (retry back-off, waiting for a reply or a read deadline), and several tasks whose waits
+// end at the same virtual instant would otherwise run on, unscheduled and in parallel, until their next
+// instrumented operation.
 func (s *Server) dial(ctx context.Context, network, addr string) (net.Conn, error) {
+	zsim.Woke("redis.dial")
 	s.Dials++
 	if s.Down {
 		s.R.FaultFired("redis-dial-refused")
@@ -170,6 +177,7 @@ func netErr(op string, err error) error {
 }
 
 func (c *conn) Write(p []byte) (int, error) {
+	zsim.Woke("redis.write")
 	if c.s.Latency > 0 {
 		zsim.Sleep(c.s.Latency)
 	}
@@ -180,11 +188,13 @@ func (c *conn) Write(p []byte) (int, error) {
 		return 0, &net.OpError{Op: "write", Net: "tcp", Err: errors.New("connection reset by peer (simulated)")}
 	}
 	n, err := c.Conn.Write(p)
+	zsim.Woke("redis.written")
 	return n, netErr("write", err)
 }
 
 func (c *conn) Read(p []byte) (int, error) {
 	n, err := c.Conn.Read(p)
+	zsim.Woke("redis.read")
 	if err == nil && c.s.DropReply > 0 {
 		// the server executed the command; its reply is lost
 		c.s.DropReply--
